@@ -22,6 +22,7 @@ Sinks == {<<<<0, 0>>, <<0, 0>>>>} \cup {<<<<k, -5>>, <<0, 0>>>> : k \in SinkFail
          \cup {<<<<k, EPIPE>>, <<0, 0>>>> : k \in SinkFails}
          \* the library's string sink: empty or non-empty before, allocation failing at growth step k (0 = never)
          \cup {<<<<k, ENOMEM, "str", l0>>, <<0, 0>>>> : k \in SinkFails \cup {0}, l0 \in {0, 3}}
+         \cup {<<<<0, ENOMEM, "str", -1>>, <<0, 0>>>>, <<<<0, 0>>, <<0, ENOMEM, "str", -1>>>>}   \* (a NULL string to begin with)
          \cup {<<<<0, 0>>, <<k, ENOMEM, "str", l0>>>> : k \in SinkFails \cup {0}, l0 \in {0, 3}}
          \cup {<<<<0, 0, "discard">>, <<0, 0, "null">>>>, <<<<0, 0, "null">>, <<0, 0>>>>}
 
